@@ -422,10 +422,12 @@ def range_hint(t):
     return _range_hint.get(t.id)
 
 
-def forall(names, body):
+def forall(names, body, patterns=()):
+    """patterns: terms over the bound names that together form one (multi-)trigger for instantiation; a hint to the
+    solver only (any instance of a universally quantified hypothesis is a consequence of it)"""
     body = truth(body)
     if body.op == 'bconst': return body
-    return _mk('forall', (body,), 'b', tuple(names))
+    return _mk('forall', (body,) + tuple(patterns), 'b', tuple(names))
 
 
 def exists(names, body):
@@ -512,7 +514,7 @@ def rebuild(n, args):
     if op == 'and': return band_(*args)
     if op == 'or': return bor_(*args)
     if op == 'aite': return ite(*args)
-    if op == 'forall': return forall(n.val, args[0])
+    if op == 'forall': return forall(n.val, args[0], args[1:])
     if op == 'exists': return exists(n.val, args[0])
     return _REBUILD[op](*args)
 
